@@ -283,7 +283,7 @@ impl ZonedDateTime {
     /// Returns the hours in the day.
     ///
     /// Enable with the `compiled_data` feature flag.
-    pub fn hours_in_day(&self) -> TemporalResult<u8> {
+    pub fn hours_in_day(&self) -> TemporalResult<f64> {
         let provider = TZ_PROVIDER
             .lock()
             .map_err(|_| TemporalError::general("Unable to acquire lock"))?;
